@@ -65,3 +65,79 @@ Section Rows.
       + symmetry. apply N.eqb_neq. intros Hc. apply Z.eqb_neq in E. apply E. rewrite <- Hc. rewrite Z2N.id; lia.
   Qed.
 End Rows.
+
+(* ---- the whole token stream: the row reported at every Read is the start row plus the line breaks of the tokens
+   read so far, for every source text and every length of the stream ---- *)
+Section Stream.
+  Variable is_uspace is_udigit is_uupper is_ulower : N -> bool.
+  Variable V : lex_variant.
+  Variable bc : list (list N).
+
+  Lemma get_token_clears fuel p p' : get_token is_uspace is_udigit V fuel p = Some p' -> pungot p' = false.
+  Proof.
+    unfold get_token. destruct (pungot p); [intros H; inversion H; reflexivity|].
+    destruct (advance is_uspace is_udigit V fuel (lx p)) as [[[|] l']|]; [| |discriminate].
+    - destruct (tok l' =? Z.of_N ch_nl); intros H; inversion H; reflexivity.
+    - intros H; inversion H; reflexivity.
+  Qed.
+
+  Lemma read_clears fuel p r p' :
+    parser_read is_uspace is_udigit is_uupper is_ulower V bc fuel p = Some (r, p') -> pungot p' = false.
+  Proof.
+    unfold parser_read. destruct (get_token is_uspace is_udigit V fuel p) as [p1|] eqn:Eg; [|discriminate].
+    pose proof (get_token_clears _ _ _ Eg) as Hc.
+    repeat match goal with
+           | |- context [if ?b then _ else _] => destruct b
+           | |- context [match val ?l with _ => _ end] => destruct (val l)
+           end; intros H; inversion H; subst; cbn [finish pungot]; exact Hc.
+  Qed.
+
+  (* rows_from row l: every entry's row is the previous row plus the breaks of its own token *)
+  Fixpoint rows_from (row : Z) (l : list (read_result * Z * Z)) : Prop :=
+    match l with
+    | [] => True
+    | (r, row', _) :: t => row' = row + breaks_of r false /\ rows_from row' t
+    end.
+
+  Theorem read_all_rows n fuel : forall p l,
+    read_all is_uspace is_udigit is_uupper is_ulower V bc n fuel p = Some l ->
+    pungot p = false ->
+    (forall x, In x l -> fst (fst x) <> RError) ->
+    rows_from (prow p) l.
+  Proof.
+    induction n as [|n IH]; intros p l; cbn [read_all]; [intros H; inversion H; intros; exact I|].
+    destruct (parser_read is_uspace is_udigit is_uupper is_ulower V bc fuel p) as [[r p']|] eqn:Er; [|discriminate].
+    intros H Hu Hne.
+    assert (Hrow : r <> RError -> prow p' = prow p + breaks_of r false).
+    { intros Hr. rewrite (read_row_accounting _ _ _ _ _ _ _ _ _ _ Er Hr), Hu. reflexivity. }
+    destruct r as [k sp| |].
+    - destruct (read_all is_uspace is_udigit is_uupper is_ulower V bc n fuel p') as [t|] eqn:Et; [|discriminate].
+      inversion H; subst. cbn [rows_from]. split.
+      + apply Hrow. discriminate.
+      + apply (IH p' t Et (read_clears _ _ _ _ Er)). intros x Hx. apply Hne. right; exact Hx.
+    - inversion H; subst. cbn [rows_from]. split; [apply Hrow; discriminate | exact I].
+    - exfalso. inversion H; subst. apply (Hne (RError, prow p', perror_row p')); [left; reflexivity | reflexivity].
+  Qed.
+
+  (* closed form: the row of the k-th Read *)
+  Fixpoint total_breaks (l : list (read_result * Z * Z)) : Z :=
+    match l with [] => 0 | (r, _, _) :: t => breaks_of r false + total_breaks t end.
+
+  Lemma rows_from_last row l : rows_from row l ->
+    forall k, (k <= List.length l)%nat ->
+    List.last (map (fun x => snd (fst x)) (firstn k l)) row = row + total_breaks (firstn k l).
+  Proof.
+    revert row. induction l as [|[[r row'] e] t IH]; intros row Hr k Hk.
+    - rewrite firstn_nil. cbn. lia.
+    - destruct k as [|k]; [cbn; lia|]. cbn [rows_from] in Hr. destruct Hr as [E Ht].
+      cbn [firstn map total_breaks fst snd]. cbn [List.length] in Hk.
+      specialize (IH row' Ht k ltac:(lia)).
+      destruct (map (fun x => snd (fst x)) (firstn k t)) as [|y ys] eqn:Em.
+      + cbn [List.last] in *. lia.
+      + change (List.last (row' :: y :: ys) row) with (List.last (y :: ys) row).
+        assert (Hl : forall d1 d2, List.last (y :: ys) d1 = List.last (y :: ys) d2).
+        { clear. revert y. induction ys as [|z zs IHz]; intros y d1 d2; [reflexivity|].
+          change (List.last (z :: zs) d1 = List.last (z :: zs) d2). apply IHz. }
+        rewrite (Hl row row'). lia.
+  Qed.
+End Stream.
